@@ -1150,7 +1150,31 @@ impl TransportManager {
                     match command {
                         InnerTransportManagerCommand::DialPeer { peer } => {
                             if let Err(error) = self.dial(peer).await {
-                                tracing::debug!(target: LOG_TARGET, ?peer, ?error, "failed to dial peer")
+                                tracing::debug!(target: LOG_TARGET, ?peer, ?error, "failed to dial peer");
+
+                                // The handle already accepted the dial request, the protocol that
+                                // issued it is waiting for the outcome. Unless the peer got
+                                // connected in the meantime, report the refusal as a dial failure.
+                                if !std::matches!(error, Error::AlreadyConnected) {
+                                    for context in self.protocols.values() {
+                                        if context
+                                            .tx
+                                            .try_send(InnerTransportEvent::DialFailure {
+                                                peer,
+                                                addresses: Vec::new(),
+                                            })
+                                            .is_err()
+                                        {
+                                            let _ = context
+                                                .tx
+                                                .send(InnerTransportEvent::DialFailure {
+                                                    peer,
+                                                    addresses: Vec::new(),
+                                                })
+                                                .await;
+                                        }
+                                    }
+                                }
                             }
                         }
                         InnerTransportManagerCommand::DialAddress { address } => {
